@@ -153,4 +153,21 @@ def runProgram (fuel : Nat) (withStd : Bool) (stmts : List Expr) : String :=
   | (.ok (v, _), st) => "(value " ++ showVal st 0 v ++ ")"
   | (.error s, _) => showSig s
 
+/-- the REPL route: every input is run in the environment and store the previous inputs left;
+    an input that fails leaves the environment as it was but keeps the store (cells it wrote stay written) -/
+def runRepl (fuel : Nat) (withStd : Bool) (names : List String) (chunks : List (List Expr)) : String :=
+  let env0 : Env := [[], if withStd then stdEnv else []]
+  let rec go (chunks : List (List Expr)) (env : Env) (st : St) (acc : List String) : List String :=
+    match chunks with
+    | [] => acc.reverse
+    | c :: rest =>
+      let (res, env', st') := match evalSeq fuel env c st with
+        | (.ok (v, env'), st') => ("(value " ++ showVal st' 0 v ++ ")", env', st')
+        | (.error s, st') => (showSig s, env, st')
+      let vars := names.map fun n => match env'.lookup n with
+        | some v => "(" ++ n ++ " " ++ showVal st' 0 v ++ ")"
+        | none => "(" ++ n ++ " unbound)"
+      go rest env' st' (("(step " ++ res ++ " (vars " ++ " ".intercalate vars ++ "))") :: acc)
+  "(repl " ++ " ".intercalate (go chunks env0 {} []) ++ ")"
+
 end Ssl.Spec
